@@ -230,7 +230,7 @@ def check_layout_invariance(scn, ref_cache):
     from . import runner
 
     ref, ref_exc = ref_cache["ref"]
-    if ref is None or scn["op"] in ("zonal_mean", "dekad"):
+    if ref is None or scn["op"] == "dekad":
         return []
     canon = dict(scn)
     canon["layout"] = ["time", "y", "x"]
@@ -365,6 +365,14 @@ def handle_violations(agg, known, workload, key, scn, cfg, rr, minimiser, extra=
         agg.d["violations"].append(payload)
 
 
+def _ckpt(job, agg):
+    cb = job.get("_checkpoint")
+    if cb is not None:
+        out = agg.export()
+        out["name"] = job["name"]
+        cb(out)
+
+
 def job_op(job):
     """One operation: Workload A (simulated dask), B (caller threads), R (real schedulers)."""
     from . import minimise, runner, workload_b
@@ -495,6 +503,9 @@ def job_op(job):
                 )
 
             handle_violations(agg, known, "A", key, scn, cfg, rr, minimiser, extra={"perm": getattr(check_equivariance, "last_perm", None)})
+            _ckpt(job, agg)
+        elif nA % 100 == 0:
+            _ckpt(job, agg)
     agg.bump("wall", "A", time.monotonic() - t_start)
     # ---------------- R ----------------
     t1 = time.monotonic()
